@@ -256,6 +256,10 @@ func (w *WaitGroup) Wait() {
 	if w.n > 0 {
 		w.waiters = append(w.waiters, r.cur)
 		r.park(fmt.Sprintf("waitgroup%d", w.id))
+		if w.n != 0 {
+			// the runtime checks this when a released waiter resumes
+			panic("sync: WaitGroup is reused before previous Wait has returned")
+		}
 	}
 	r.ev("wg.waited", w.id)
 }
